@@ -9,6 +9,9 @@ TARGET = os.path.join(BUILD, "target")
 LEAN = os.path.join(VERIF, "lean")
 HARNESS = os.path.join(TARGET, "debug", "harness")
 HARNESS_NOFAST = os.path.join(TARGET, "debug", "harness-nofast")
+# the same harness compiled without optimisation: stack use is observed on the build that uses most (a tail
+# call that an optimiser turns into a loop is still one frame per element in a debug build)
+HARNESS_O0 = os.path.join(TARGET, "debug", "harness-o0")
 DRIVER = os.path.join(LEAN, ".lake", "build", "bin", "driver")
 ENV = dict(os.environ, CARGO_NET_OFFLINE="true", CARGO_TARGET_DIR=TARGET)
 ALLOWED_AXIOMS = {"propext", "Classical.choice", "Quot.sound"}
@@ -24,16 +27,16 @@ TRUSTED_BASE = [
 # per property: (family, quick count, build) ; thorough multiplies the count
 PROPS = {
     "C01": dict(fams=[("rt01", 3000, "fast"), ("print", 600, "fast"), ("chars", 1, "fast"), ("rtwide", 1, "fast"), ("rt01", 800, "nofast")], mult=20),
-    "C02": dict(fams=[("rt02", 3000, "fast"), ("rtall", 1, "fast"), ("chars", 1, "fast"), ("rtwide", 1, "fast")], mult=10),
-    "C03": dict(fams=[("short", 1, "fast"), ("deep", 1, "fast"), ("malformed", 2500, "fast"), ("text", 400, "fast"), ("escapes", 1, "fast"), ("numshort", 1, "fast"), ("num", 3000, "fast"), ("num", 1000, "nofast")], mult=10, special="abort"),
+    "C02": dict(fams=[("rt02", 3000, "fast"), ("rtall", 1, "fast"), ("chars", 1, "fast"), ("rtwide", 1, "fast"), ("opts", 1, "fast")], mult=10),
+    "C03": dict(fams=[("short", 1, "fast"), ("deep", 1, "fast"), ("malformed", 2500, "fast"), ("text", 400, "fast"), ("escapes", 1, "fast"), ("numshort", 1, "fast"), ("num", 3000, "fast"), ("num", 1000, "nofast"), ("faults", 60, "fast")], mult=10, special="abort"),
     "C04": dict(fams=[("serde", 1500, "fast")], mult=20),
     "C05": dict(fams=[("num", 6000, "fast"), ("numshort", 1, "fast"), ("num", 3000, "nofast"), ("numshort", 1, "nofast")], mult=20),
-    "C06": dict(fams=[("text", 1200, "fast"), ("faults", 150, "fast"), ("malformed", 1200, "fast"), ("escapes", 1, "fast")], mult=10),
+    "C06": dict(fams=[("text", 1200, "fast"), ("faults", 150, "fast"), ("malformed", 1200, "fast"), ("escapes", 1, "fast"), ("num", 1500, "fast")], mult=10),
     "C07": dict(fams=[("print", 1500, "fast"), ("sink", 3000, "fast"), ("printall", 1, "fast")], mult=10),
-    "C08": dict(fams=[("tok", 1, "fast"), ("numshort", 1, "fast")], mult=2),
+    "C08": dict(fams=[("tok", 1, "fast"), ("numshort", 1, "fast"), ("opts", 1, "fast")], mult=2),
     "C09": dict(fams=[], mult=10, special="macro"),
     "C10": dict(fams=[("text", 1500, "fast"), ("malformed", 1500, "fast"), ("deep", 1, "fast"), ("tok", 1, "fast")], mult=10),
-    "C11": dict(fams=[("text", 2000, "fast"), ("malformed", 500, "fast")], mult=10),
+    "C11": dict(fams=[("text", 2000, "fast"), ("malformed", 500, "fast"), ("faults", 100, "fast")], mult=10),
     "C12": dict(fams=[("trivia", 2000, "fast"), ("text", 1500, "fast"), ("malformed", 2000, "fast"), ("deep", 1, "fast")], mult=10),
     "C13": dict(fams=[("pp", 4000, "fast"), ("ppfix", 1, "fast"), ("pp", 1000, "nofast")], mult=10),
     "C14": dict(fams=[("serde", 1500, "fast"), ("deser", 1500, "fast")], mult=20),
@@ -67,9 +70,13 @@ def sh(cmd, cwd=None, env=None, timeout=None, stdin=None):
 # ---------------------------------------------------------------------------------------------
 # builds
 
-def build_harness(need_nofast):
+def build_harness(need_nofast, need_o0=False):
     with Lock("cargo.lock"):
         t = time.time()
+        if need_o0:
+            rc, out = sh(["cargo", "build", "--offline", "-q"], cwd=os.path.join(VERIF, "harness", "o0"))
+            if rc != 0:
+                return False, "harness (unoptimised build) does not build against /repo:\n" + out[-3000:]
         rc, out = sh(["cargo", "build", "--offline", "-q"], cwd=os.path.join(VERIF, "harness", "fast"))
         if rc != 0:
             return False, "harness (default features) does not build against /repo:\n" + out[-3000:]
@@ -120,7 +127,9 @@ def theorem_names(module):
             stack.pop(); continue
         m = re.match(r"^\s*(?:@\[[^\]]*\]\s*)?(?:private\s+|protected\s+)?theorem\s+([A-Za-z0-9_'.]+)", line)
         if m and "private" not in line.split("theorem")[0]:
-            names.append(".".join(stack + [m.group(1)]))
+            n = m.group(1)
+            # `theorem _root_.A.b` declares A.b whatever namespace is open
+            names.append(n[len("_root_."):] if n.startswith("_root_.") else ".".join(stack + [n]))
     return names
 
 def audit(prop, modules, workdir):
@@ -311,7 +320,8 @@ def run_depth(prop, tier, workdir):
     Returns (lines of 'FAIL ...' results, counters)."""
     sizes = [1000, 100000, 1000000] if tier == "quick" else [1000, 10000, 100000, 1000000, 3000000]
     ops = ["build", "drop", "parse", "parse_datum", "print", "display", "to_vec", "into_vec", "iter", "into_iter",
-           "index", "is_list", "clone", "eq", "datum_clone", "datum_eq", "datum_drop", "datum_iter", "to_value", "from_value"]
+           "index", "is_list", "clone", "eq", "datum_clone", "datum_eq", "datum_drop", "datum_iter", "to_value", "from_value",
+           "datum_fail", "datum_fail_bracket", "datum_fail_token", "value_fail", "datum_iter_fail", "datum_cdr_owned", "alist"]
     if prop == "C03":
         ops = []
     jobs = []
@@ -331,7 +341,7 @@ def run_depth(prop, tier, workdir):
     def one(job):
         op, shape, n = job
         try:
-            p = subprocess.run([HARNESS, "depth", op, shape, str(n)], stdout=subprocess.PIPE, stderr=subprocess.PIPE, timeout=600)
+            p = subprocess.run([HARNESS_O0, "depth", op, shape, str(n)], stdout=subprocess.PIPE, stderr=subprocess.PIPE, timeout=900)
             return job, p.returncode
         except subprocess.TimeoutExpired:
             return job, "timeout"
@@ -354,6 +364,12 @@ def run_abort_probes(workdir):
             for api in ("v1", "d1", "r:v:3000"):
                 text = (o * (1000000 // max(1, len(o)))).encode()
                 jobs.append((o, ro, api, text))
+    # long FLAT lists that end in an error: what was built so far is dropped inside the failing call
+    for body, tail in (("1 ", ""), ("1 ", "MISMATCH"), ("() ", "#z)"), ("\"s\" ", ". 1 2)")):
+        for opener in ("(", "#(", "[", "'("):
+            for api in ("v1", "d1", "r:d:3"):
+                tl = ("]" if opener != "[" else ")") if tail == "MISMATCH" else tail
+                jobs.append(("flat " + opener + body + "..." + tl, "0011100000", api, (opener + body * 400000 + tl).encode()))
     mix = ("('`,[#(" * 150000).encode()
     jobs.append(("mix", "0011100000", "v1", mix))
     jobs.append(("mix", "1000011101", "d1", mix))
@@ -361,7 +377,7 @@ def run_abort_probes(workdir):
         o, ro, api, text = job
         line = "parse 1 i0 %s %s %s\n" % (ro, api, binascii.hexlify(text).decode())
         try:
-            p = subprocess.run([HARNESS, "exec"], input=line.encode(), stdout=subprocess.PIPE, stderr=subprocess.PIPE, timeout=900)
+            p = subprocess.run([HARNESS_O0, "exec"], input=line.encode(), stdout=subprocess.PIPE, stderr=subprocess.PIPE, timeout=1200)
             out = p.stdout.decode("utf-8", "replace")
             return job, p.returncode, out
         except subprocess.TimeoutExpired:
@@ -427,7 +443,7 @@ def run_check(prop, tier, seed, replay):
     need_nofast = any(b == "nofast" for _, _, b in cfg["fams"])
 
     # 1. harness from the working tree
-    ok, msg = build_harness(need_nofast)
+    ok, msg = build_harness(need_nofast, cfg.get("special") in ("depth", "abort"))
     if not ok:
         violations.append(("the harness no longer builds against /repo", dict(kind="build", detail=msg)))
         return finish(prop, tier, seed, t0, workdir, violations, None, [], {}, [], notes, [], "")
